@@ -522,6 +522,56 @@ def main(tier):
                      {"kind": "input", "case": "V %s=%s 1 %s  (repeated %d times)" % (g[0], g[1], hx(g[2]), len(outs)),
                       "distinct_outputs": len(set(outs)), "distinct_nonces": len(set(nonces)), "distinct_bodies": len(set(bodies))})
     c.cov["pairwise_distinct_pairs_checked"] = pairs
+    # (d') the same under concurrency: G goroutines x N Value() calls on one key (same value / mixed values and types),
+    # every nonce collected, any nonce used twice is a failing execution.  For 96-bit random nonces the chance of a
+    # collision among 1.6e6 draws is about n^2/2^97 = 1.6e-17, so a duplicate cannot be bad luck.
+    G, N = 8, (200000 if full else 20000)
+    conc = []
+    for mode in ("same", "mixed"):
+        rc, outl, err = c.run_impl(binary, ["c18", "conc", str(G), str(N), mode], "")
+        line = outl[0] if outl else "<missing> " + err[-300:]
+        kv = dict(x.split("=", 1) for x in line.split()[1:] if "=" in x)
+        conc.append({"mode": mode, "goroutines": G, "iterations": N, "calls": int(kv.get("total", 0)), "errors": kv.get("errors"),
+                     "duplicate_nonces": kv.get("dup_nonces"), "identical_ciphertexts": kv.get("dup_stored")})
+        if not line.startswith("conc ") or kv.get("errors") != "0" or int(kv.get("total", 0)) != G * N:
+            c.report("C18:nonce:concurrent", "concurrent Value() calls failed or panicked: %s" % line[:300],
+                     {"kind": "input", "case": "harness c18 conc %d %d %s" % (G, N, mode), "implementation": line[:1000]})
+        elif kv.get("dup_nonces") != "0":
+            c.report("C18:nonce:concurrent",
+                     "concurrent Value() calls under one key used the same nonce twice (%s duplicate nonces, %s identical ciphertexts among %s calls)"
+                     % (kv["dup_nonces"], kv["dup_stored"], kv["total"]),
+                     {"kind": "input", "case": "harness c18 conc %d %d %s" % (G, N, mode), "goroutines": G, "iterations_per_goroutine": N,
+                      "mode": mode, "duplicated_nonce": kv.get("first"), "first_duplicate_at_goroutine/iteration": kv.get("at"),
+                      "duplicate_nonces": kv["dup_nonces"], "identical_ciphertexts": kv["dup_stored"], "implementation": line[:1000],
+                      "how": "8 goroutines released by a barrier call EncryptColumn.Value() on columns with the same 32-byte key; rerun the case "
+                             "(a race: the number of duplicates varies, their existence does not on a multi-core machine)"})
+    c.cov["concurrent_value_calls"] = conc
+    # (d'') structure of the nonces of SEQUENTIAL calls (all Value() calls of phase 1, in call order, one process).
+    # The model takes the nonce from a random oracle (crypto/rand).  With S >= 100 independent uniform 12-byte strings,
+    #   P(some byte position is constant over all samples)      <= 12 * 256^-(S-1)  <  10^-237,
+    #   P(the samples are strictly monotone as big- or little-endian integers) <= 4 / S!  <  10^-157,
+    # so neither can fire on random nonces; a fixed prefix, a counter or a timestamp does fire.  This is a break of the
+    # correspondence (the nonce is no longer what the model assumes), not by itself a failing input.
+    seq = []
+    for cs, o in zip(cases1, impl1):
+        m = re.match(r"ok stored=([0-9a-f]{24})", o) if cs.kind == "V" else None
+        if m:
+            seq.append(bytes.fromhex(m.group(1)))
+    if len(seq) >= 100:
+        const = [i for i in range(12) if len({x[i] for x in seq}) == 1]
+        be = [int.from_bytes(x, "big") for x in seq]
+        le = [int.from_bytes(x, "little") for x in seq]
+        mono = [nm for nm, xs in (("big-endian", be), ("little-endian", le))
+                if all(a < b for a, b in zip(xs, xs[1:])) or all(a > b for a, b in zip(xs, xs[1:]))]
+        c.cov["sequential_nonce_structure"] = {"samples": len(seq), "constant_byte_positions": const, "monotone": mono}
+        if len(const) >= 4 or mono:
+            c.report("C18:nonce:structure",
+                     "the nonces of %d consecutive Value() calls are not independent random strings (constant byte positions %s, monotone: %s): "
+                     "the nonce does not come from crypto/rand per call as the model assumes" % (len(seq), const, mono or "no"),
+                     {"kind": "correspondence", "first_nonces": [x.hex() for x in seq[:6]], "constant_byte_positions": const, "monotone": mono,
+                      "theorems_not_transferring": ["fresh_nonce_gives_distinct_ciphertexts (its premise, distinct nonces, is then a property "
+                                                    "of the new generator and has to be re-established, also under concurrency)"]},
+                     found_input=False)
     # model's codec against the independent Python oracle
     cbad = [i for i in range(len(codec_lines)) if i >= len(codec_got) or codec_got[i] != codec_want[i]]
     c.cov["codec_model_vs_bigint_oracle"] = {"cases": len(codec_lines), "agree": len(codec_lines) - len(cbad)}
@@ -567,7 +617,8 @@ def finish(c):
                      "issued ciphertexts open) — authenticity of AES-GCM is a computational assumption and cannot be a theorem",
                      "PARTIAL: encoding/json is abstract (json_enc/json_dec); json_roundtrip and the JSON case of value_scan_roundtrip assume "
                      "json_roundtrips for the JSON-representable values and a zero-valued destination (json.Unmarshal merges into the old value)",
-                     "nonce freshness is crypto/rand's (the nonce is an input of the model); distinctness of 12-byte random nonces is probabilistic",
+                     "nonce freshness is crypto/rand's (the nonce is an input of the model); distinctness of 12-byte random nonces is probabilistic; "
+                     "the premise is tested on the real code sequentially and with 8 concurrent goroutines (duplicate search over every nonce drawn)",
                      "int/uint are 64 bits wide; nil and empty byte slices are identified; binary.Write/Read, type switches and the order of checks "
                      "behave as modelled (cross-checked by the differential run)"],
         trusted_base=["Coq 8.16.1 kernel + vm_compute (no native_compute)", "no axioms (Print Assumptions: closed under the global context); "
